@@ -429,6 +429,7 @@ func (r *runner) runBlock(steps []Step) {
 		r.res.Executed++
 		if q.st.Op == "close" || q.st.Op == "rst" {
 			q.closes = true
+			r.departStep = r.stepIdx
 			if q.st.Op == "close" {
 				q.c.CloseFIN()
 			} else {
@@ -437,6 +438,9 @@ func (r *runner) runBlock(steps []Step) {
 			continue
 		}
 		q.p = r.m.Build(q.st, q.st.Conn, q.c.NextReqID())
+		if q.st.Op == "join" && before[q.st.Conn] != nil {
+			r.departStep = r.stepIdx // a switch is a departure from the old session
+		}
 		if q.p.Req != nil {
 			q.c.Send(q.p.Req)
 		}
